@@ -422,8 +422,8 @@ func c45Subpackets(maxN int) {
 // area, is 6 bytes).
 func Verif_C45_Subpackets() { c45Subpackets(6) }
 
-// Verif_C45_SubpacketsT: area length 0..8.
-func Verif_C45_SubpacketsT() { c45Subpackets(8) }
+// Verif_C45_SubpacketsT: area length 0..7.
+func Verif_C45_SubpacketsT() { c45Subpackets(7) }
 
 // Verif_C45_SignatureTemplate: packet.Read on a version-4 signature packet (tag 2) whose fixed
 // fields are concrete (RSA, SHA-256) and whose hashed area is a 6-byte creation-time subpacket
